@@ -1,13 +1,72 @@
 //! C13: layer compositing obeys the stacking laws.
 //!
 //! correspondence: `Buffer::get_char` at every position of the stack's bounding box + 2 against the Lean model
-//! (`icydrv comp get …`), the half-block classifier sampled from the implementation (`Buffer::make_solid_color`).
+//! (`icydrv comp get …`; the half-block classifier is the model of `HalfBlock::from` over the regenerated font bitmaps);
+//! real `Layer`s driven through histories of `set_offset` / `set_preview_offset` / position lock / direct writes of
+//! `properties.offset` and then composited (`comp ops …`, together with the three getters); `make_solid_color` on every
+//! glyph of the installed fonts (`comp solid …`); `AttributedChar::{is_visible, is_transparent}` (`comp pred …`);
+//! `Layer::get_char` on ragged rows inside and outside the layer (`comp lget …`).
 //! oracle (independent of the model): the relational laws of the property applied to real `Buffer`s.
 use crate::doc::*;
 use crate::util::*;
-use icy_engine::{AttributedChar, BitFont, Buffer, TextAttribute, TextPane};
+use icy_engine::{AttributedChar, BitFont, Buffer, Position, TextAttribute, TextPane};
 use std::collections::BTreeSet;
 use std::panic::AssertUnwindSafe;
+
+/// an operation on the position state of one layer (src/layer.rs)
+#[derive(Clone, Copy, Debug, PartialEq, Eq)]
+pub enum Op {
+    /// `layer.set_offset(q)`
+    SetOffset(i32, i32),
+    /// `layer.set_preview_offset(Some(p))`
+    Preview(i32, i32),
+    /// `layer.set_preview_offset(None)`
+    PreviewNone,
+    /// `layer.properties.is_position_locked = b`
+    Lock(bool),
+    /// `layer.properties.offset = q` (public field)
+    Assign(i32, i32),
+}
+
+impl Op {
+    fn encode(&self) -> [i64; 3] {
+        match *self {
+            Op::SetOffset(x, y) => [0, x as i64, y as i64],
+            Op::Preview(x, y) => [1, x as i64, y as i64],
+            Op::PreviewNone => [2, 0, 0],
+            Op::Lock(b) => [3, b as i64, 0],
+            Op::Assign(x, y) => [4, x as i64, y as i64],
+        }
+    }
+    fn decode(c: i64, a: i64, b: i64) -> Option<Op> {
+        Some(match c {
+            0 => Op::SetOffset(a as i32, b as i32),
+            1 => Op::Preview(a as i32, b as i32),
+            2 => Op::PreviewNone,
+            3 => Op::Lock(a != 0),
+            4 => Op::Assign(a as i32, b as i32),
+            _ => return None,
+        })
+    }
+    fn apply(&self, l: &mut icy_engine::Layer) {
+        match *self {
+            Op::SetOffset(x, y) => l.set_offset((x, y)),
+            Op::Preview(x, y) => l.set_preview_offset(Some(Position::new(x, y))),
+            Op::PreviewNone => l.set_preview_offset(None),
+            Op::Lock(b) => l.properties.is_position_locked = b,
+            Op::Assign(x, y) => l.properties.offset = Position::new(x, y),
+        }
+    }
+    fn name(&self) -> &'static str {
+        match self {
+            Op::SetOffset(..) => "set_offset",
+            Op::Preview(..) => "set_preview_offset_some",
+            Op::PreviewNone => "set_preview_offset_none",
+            Op::Lock(_) => "position_lock",
+            Op::Assign(..) => "assign_offset",
+        }
+    }
+}
 
 #[derive(Clone, Debug)]
 pub struct Case {
@@ -16,6 +75,8 @@ pub struct Case {
     /// query rectangle (inclusive)
     pub rect: (i32, i32, i32, i32),
     pub layers: Vec<LayerSpec>,
+    /// history of position operations `(layer index, op)` applied to the freshly built stack (encoding version 2)
+    pub ops: Vec<(usize, Op)>,
 }
 
 impl Case {
@@ -27,16 +88,25 @@ impl Case {
         (x0 - 2, y0 - 2, x1 + 2, y1 + 2)
     }
     fn encode(&self) -> Vec<i64> {
-        let mut v = vec![1, self.is_term as i64, self.tseed as i64, self.rect.0 as i64, self.rect.1 as i64, self.rect.2 as i64, self.rect.3 as i64, self.layers.len() as i64];
+        let version = if self.ops.is_empty() { 1 } else { 2 };
+        let mut v = vec![version, self.is_term as i64, self.tseed as i64, self.rect.0 as i64, self.rect.1 as i64, self.rect.2 as i64, self.rect.3 as i64, self.layers.len() as i64];
         for l in &self.layers {
             l.encode(&mut v);
+        }
+        if version == 2 {
+            v.push(self.ops.len() as i64);
+            for (i, op) in &self.ops {
+                v.push(*i as i64);
+                v.extend(op.encode());
+            }
         }
         v
     }
     fn decode(s: &str) -> Option<Case> {
         let v = parse_ints(s)?;
         let mut it = v.into_iter();
-        if it.next()? != 1 {
+        let version = it.next()?;
+        if version != 1 && version != 2 {
             return None;
         }
         let is_term = it.next()? != 0;
@@ -47,7 +117,18 @@ impl Case {
         for _ in 0..n {
             layers.push(LayerSpec::decode(&mut it)?);
         }
-        Some(Case { is_term, tseed, rect, layers })
+        let mut ops = Vec::new();
+        if version == 2 {
+            let k = it.next()?;
+            for _ in 0..k {
+                let i = it.next()?;
+                if i < 0 || i as usize >= layers.len() {
+                    return None;
+                }
+                ops.push((i as usize, Op::decode(it.next()?, it.next()?, it.next()?)?));
+            }
+        }
+        Some(Case { is_term, tseed, rect, layers, ops })
     }
     fn input(&self) -> String {
         join(&self.encode(), ",")
@@ -63,12 +144,24 @@ impl Case {
     }
 }
 
-/// font slots of every test buffer: 0 = CP437 8x16, 1 = C64 8x8, 3 = Amiga Topaz; slot 2 is absent
+/// font slots of every test buffer as (buffer slot, ANSI font slot): 0 = CP437 8x16, 1 = C64 8x8, 3 = Amiga Topaz;
+/// slot 2 is absent.  The translator (tools/gens/comp.py: HARNESS_ANSI_SLOTS) regenerates exactly these bitmaps.
+pub const FONT_SLOTS: &[(usize, usize)] = &[(0, 0), (1, 32), (3, 42)];
+
+fn font_words() -> Vec<i64> {
+    let mut v = vec![FONT_SLOTS.len() as i64];
+    for (b, a) in FONT_SLOTS {
+        v.extend([*b as i64, *a as i64]);
+    }
+    v
+}
+
 pub fn build(is_term: bool, layers: &[LayerSpec]) -> Buffer {
     let mut buf = Buffer::new((16, 8));
     buf.is_terminal_buffer = is_term;
-    buf.set_font(1, BitFont::from_ansi_font_page(32).unwrap());
-    buf.set_font(3, BitFont::from_ansi_font_page(42).unwrap());
+    for (b, a) in FONT_SLOTS {
+        buf.set_font(*b, BitFont::from_ansi_font_page(*a).unwrap());
+    }
     buf.layers.clear();
     for l in layers {
         buf.layers.push(l.build());
@@ -95,6 +188,7 @@ fn show(obs: &[Result<AttributedChar, String>]) -> String {
 }
 
 /// the (page, char) pairs `make_solid_color` can be asked about, classified by the implementation
+/// (C12's driver takes the classifier as this sampled table; C13 uses the model of `HalfBlock::from`)
 pub fn sample_hb(buf: &Buffer, layers: &[LayerSpec]) -> Vec<i64> {
     let mut pages: BTreeSet<usize> = [0usize].into_iter().collect();
     let mut chars: BTreeSet<u32> = [32u32].into_iter().collect();
@@ -121,7 +215,7 @@ fn correspond(run: &mut Run, case: &Case, buf: &Buffer) -> Vec<Result<Attributed
     let pos = case.positions();
     let obs = observe(buf, &pos);
     let mut op = vec![case.is_term as i64, case.rect.0 as i64, case.rect.1 as i64, case.rect.2 as i64, case.rect.3 as i64];
-    op.extend(sample_hb(buf, &case.layers));
+    op.extend(font_words());
     op.push(case.layers.len() as i64);
     for l in &case.layers {
         l.encode(&mut op);
@@ -188,7 +282,7 @@ fn rand_layer(rng: &mut Rng) -> LayerSpec {
 fn rand_case(rng: &mut Rng) -> Case {
     let n = rng.range(1, 5) as usize;
     let layers: Vec<LayerSpec> = (0..n).map(|_| rand_layer(rng)).collect();
-    Case { is_term: rng.chance(1, 2), tseed: rng.next() >> 12, rect: Case::bbox_rect(&layers), layers }
+    Case { is_term: rng.chance(1, 2), tseed: rng.next() >> 12, rect: Case::bbox_rect(&layers), layers, ops: Vec::new() }
 }
 
 /// compare two observation vectors cell by cell with the engine's `PartialEq`
@@ -213,7 +307,203 @@ fn first_diff(a: &[Result<AttributedChar, String>], b: &[Result<AttributedChar, 
     None
 }
 
+/// `AttributedChar::is_transparent` as the Chars arm of the walk uses it: a blank on background 0 is "no character"
+fn blank(c: CellSpec) -> bool {
+    (c.ch == 0 || c.ch == 32) && c.bg == 0
+}
+
+/// `fn merge`: the character of a Chars cell and the whole attribute of an Attributes cell replace those of `c`
+fn merged(c: CellSpec, ch: Option<u32>, attr: Option<CellSpec>) -> CellSpec {
+    let mut r = c;
+    if let Some(ch) = ch {
+        r.ch = ch;
+    }
+    if let Some(a) = attr {
+        r.fg = a.fg;
+        r.bg = a.bg;
+        r.flags = a.flags;
+        r.page = a.page;
+    }
+    r
+}
+
+/// `shown` is `t` with at most its transparent colours replaced (Lean: `Cell.fills`); exact when `t` has none
+fn fills(t: CellSpec, shown: CellSpec) -> bool {
+    shown.ch == t.ch && shown.flags == t.flags && shown.page == t.page && (t.fg == TRANSPARENT || shown.fg == t.fg) && (t.bg == TRANSPARENT || shown.bg == t.bg)
+}
+
+/// "topmost first", stated on the stack itself (no model, no second buffer) — exactly the Lean theorems `topmost_first`,
+/// `topmost_opaque_blank` and `nothing_visible`: walking down from the top, hidden / non-covering layers are skipped, a
+/// visible cell of a Chars layer (unless blank on background 0) sets the character and a visible cell of an Attributes
+/// layer the attribute for the cells beneath (the LOWEST such cell above the deciding layer wins), an alpha Normal layer
+/// with an invisible cell is looked through; the first Normal layer with a visible cell decides: the displayed cell is that
+/// cell merged with the modifiers, and only its transparent colours may have been filled in by what lies beneath.  An opaque
+/// Normal layer with an invisible cell shows the default cell (on its default font page) merged with the modifiers.  If
+/// nothing decides, the fall-through cell is shown.
+fn topmost_oracle(run: &mut Run, case: &Case, pos: &[(i32, i32)], base: &[Result<AttributedChar, String>], input: &str) {
+    let default = CellSpec { ch: 32, fg: 7, bg: 0, flags: 0, page: 0 };
+    for (k, (x, y)) in pos.iter().enumerate() {
+        let shown = match &base[k] {
+            Ok(c) => *c,
+            Err(_) => continue,
+        };
+        let s = CellSpec::of(shown);
+        let mut ch_opt: Option<u32> = None;
+        let mut attr_opt: Option<CellSpec> = None;
+        let mut decided = false;
+        for (li, l) in case.layers.iter().enumerate().rev() {
+            if !l.visible || !l.covers(*x, *y) {
+                continue;
+            }
+            // normalise through the engine's types exactly as `LayerSpec::build` does
+            let cell: CellOpt = l.rows.get((*y - l.oy) as usize).and_then(|r| r.get((*x - l.ox) as usize)).copied().flatten().map(|c| CellSpec::of(c.to_char()));
+            let vis = cell.map(|c| c.visible()).unwrap_or(false);
+            match (l.mode, vis, cell) {
+                (1, true, Some(c)) => {
+                    if !blank(c) {
+                        ch_opt = Some(c.ch);
+                    }
+                }
+                (2, true, Some(c)) => attr_opt = Some(c),
+                (0, true, Some(c)) => {
+                    let found = merged(c, ch_opt, attr_opt);
+                    let ok = shown.is_visible() && fills(found, s);
+                    if !ok {
+                        run.oracle_fail("topmost_first", input, &format!("at ({},{}) the topmost visible cell is {} of layer {} (with the char/attribute layers above it: {}) but {} is displayed", x, y, c.show(), li, found.show(), s.show()));
+                    }
+                    decided = true;
+                    break;
+                }
+                (0, false, _) if !l.alpha => {
+                    let mut d = default;
+                    d.page = l.dflt;
+                    let res = merged(d, ch_opt, attr_opt);
+                    if !(shown.is_visible() && fills(res, s)) {
+                        run.oracle_fail("topmost_opaque_blank", input, &format!("at ({},{}) opaque layer {} has no visible cell: the default cell with the char/attribute layers above it is {} but {} is displayed", x, y, li, res.show(), s.show()));
+                    }
+                    decided = true;
+                    break;
+                }
+                _ => {}
+            }
+        }
+        if !decided {
+            let expect = if case.is_term || ch_opt.is_some() || attr_opt.is_some() { merged(default, ch_opt, attr_opt).to_char() } else { AttributedChar::invisible() };
+            if !same_displayed(shown, expect) {
+                run.oracle_fail("nothing_visible", input, &format!("at ({},{}) no layer has a cell of its own: expected {} but {} is displayed", x, y, CellSpec::of(expect).show(), s.show()));
+            }
+        }
+    }
+}
+
+/// the position state of a layer as the API documents it (the harness's own bookkeeping, independent of the model)
+#[derive(Clone, Copy)]
+struct PosState {
+    base: (i32, i32),
+    pending: Option<(i32, i32)>,
+    locked: bool,
+}
+
+impl PosState {
+    fn shown(&self) -> (i32, i32) {
+        self.pending.unwrap_or(self.base)
+    }
+}
+
+/// a stack driven through a history of position operations: after every operation the picture must be the picture of a
+/// stack built from scratch with every layer at the offset the API says it has; at the end `comp ops` correspondence
+fn one_ops(run: &mut Run, case: &Case) {
+    let input = case.input();
+    let pos = case.positions();
+    let n = case.layers.len();
+    let mut buf = build(case.is_term, &case.layers);
+    let mut st: Vec<PosState> = case.layers.iter().map(|l| PosState { base: (l.ox, l.oy), pending: None, locked: false }).collect();
+    run.nontrivial(fnv(case.encode().into_iter().map(|x| x as u64)));
+    run.count(&format!("ops={}", case.ops.len().min(9)));
+    let all = |_: i32, _: i32| true;
+    // only the first oracle failure of a history is reported; the history is always run to its end and compared with the model
+    let mut reported = false;
+    for (step, (i, op)) in case.ops.iter().enumerate() {
+        let i = *i;
+        let was_locked = st[i].locked;
+        let r = catch(AssertUnwindSafe(|| op.apply(&mut buf.layers[i])));
+        if let Err(e) = r {
+            run.oracle_fail(&format!("panic:{}", panic_site(&e)), &input, &format!("{} panicked", op.name()));
+            return;
+        }
+        run.count(&format!("op:{}{}", op.name(), if was_locked { ":locked" } else { "" }));
+        match *op {
+            Op::SetOffset(x, y) => {
+                if !st[i].locked {
+                    st[i].base = (x, y);
+                    st[i].pending = None;
+                }
+            }
+            Op::Preview(x, y) => st[i].pending = Some((x, y)),
+            Op::PreviewNone => st[i].pending = None,
+            Op::Lock(b) => st[i].locked = b,
+            Op::Assign(x, y) => st[i].base = (x, y),
+        }
+        // the picture of a stack built from scratch with every layer where the API says it is
+        let mut ls = case.layers.clone();
+        for j in 0..n {
+            let (x, y) = st[j].shown();
+            ls[j].ox = x;
+            ls[j].oy = y;
+        }
+        if reported {
+            continue;
+        }
+        let got = observe(&buf, &pos);
+        let want = observe(&build(case.is_term, &ls), &pos);
+        if let Some(d) = first_diff(&want, &got, &pos, all) {
+            let key = match op {
+                Op::SetOffset(..) if was_locked => "offset_api:set_offset_on_locked_layer",
+                Op::SetOffset(..) => "offset_api:set_offset",
+                Op::Preview(..) => "offset_api:set_preview_offset",
+                Op::PreviewNone => "offset_api:cancel_preview",
+                Op::Lock(_) => "offset_api:position_lock",
+                Op::Assign(..) => "offset_api:assign_offset",
+            };
+            let (sx, sy) = st[i].shown();
+            run.oracle_fail(key, &input, &format!("after operation {} ({:?} on layer {}) the layer must contribute at ({},{}): the picture differs from that of a stack built from scratch with it there, {} (before = built from scratch, after = real layers after the operations)", step, op, i, sx, sy, d));
+            reported = true;
+            continue;
+        }
+        let l = &buf.layers[i];
+        let (g, b) = (l.get_offset(), l.get_base_offset());
+        if (g.x, g.y) != st[i].shown() || (b.x, b.y) != st[i].base || l.get_preview_offset().map(|p| (p.x, p.y)) != st[i].pending {
+            run.oracle_fail("offset_api:getters", &input, &format!("after operation {} ({:?} on layer {}): get_offset={:?} get_base_offset={:?} get_preview_offset={:?}, expected {:?} / {:?} / {:?}", step, op, i, g, b, l.get_preview_offset(), st[i].shown(), st[i].base, st[i].pending));
+            reported = true;
+        }
+    }
+    // correspondence: the real layers after the history, composited, and their getters
+    let obs = observe(&buf, &pos);
+    let mut words = vec![case.is_term as i64, case.rect.0 as i64, case.rect.1 as i64, case.rect.2 as i64, case.rect.3 as i64];
+    words.extend(font_words());
+    words.push(n as i64);
+    for l in &case.layers {
+        l.encode(&mut words);
+    }
+    words.push(case.ops.len() as i64);
+    for (i, op) in &case.ops {
+        words.push(*i as i64);
+        words.extend(op.encode());
+    }
+    let mut seen = show(&obs);
+    seen.push_str(" |");
+    for l in &buf.layers {
+        let (g, b) = (l.get_offset(), l.get_base_offset());
+        seen.push_str(&format!(" {},{};{},{};{}", g.x, g.y, b.x, b.y, l.get_preview_offset().map(|p| format!("{},{}", p.x, p.y)).unwrap_or_else(|| "none".into())));
+    }
+    run.case(&format!("comp ops {}", join(&words, " ")), &seen);
+}
+
 fn one(run: &mut Run, case: &Case, in_quantifier: bool) {
+    if !case.ops.is_empty() {
+        one_ops(run, case);
+        return;
+    }
     let buf = build(case.is_term, &case.layers);
     let base = correspond(run, case, &buf);
     let pos = case.positions();
@@ -243,51 +533,7 @@ fn one(run: &mut Run, case: &Case, in_quantifier: bool) {
     let n = case.layers.len();
     let all = |_: i32, _: i32| true;
 
-    // --- "topmost first", stated on the stack itself (no model, no second buffer): walking down from the top, the first visible
-    // covering layer that has a visible cell at the position decides.  When that layer is a Normal-mode layer (and no visible
-    // Chars/Attributes cell lies above it, which would merge into it) the displayed character is its character and every colour
-    // of that cell that is not the transparent colour is displayed unchanged — cells further down may only fill the
-    // transparent colours in.
-    for (k, (x, y)) in pos.iter().enumerate() {
-        let shown = match &base[k] {
-            Ok(c) => *c,
-            Err(_) => continue,
-        };
-        // positions touched by a visible cell of a Chars/Attributes layer anywhere in the stack are left to the model
-        // correspondence (such a cell merges into the cells beneath it; see DESIGN §9.7 for what the code does when it lies
-        // beneath a transparent-colour cell)
-        let merging = case.layers.iter().any(|l| {
-            l.visible && l.mode != 0 && l.covers(*x, *y)
-                && l.rows.get((*y - l.oy) as usize).and_then(|r| r.get((*x - l.ox) as usize)).copied().flatten().map(|c| c.visible()).unwrap_or(false)
-        });
-        if merging {
-            continue;
-        }
-        for (li, l) in case.layers.iter().enumerate().rev() {
-            if !l.visible || !l.covers(*x, *y) {
-                continue;
-            }
-            let cell: CellOpt = l.rows.get((*y - l.oy) as usize).and_then(|r| r.get((*x - l.ox) as usize)).copied().flatten();
-            let vis = cell.map(|c| c.visible()).unwrap_or(false);
-            if l.mode != 0 {
-                if vis {
-                    break; // merges into the cell below: outside this clause
-                }
-                continue;
-            }
-            if let (true, Some(c)) = (vis, cell) {
-                let s = CellSpec::of(shown);
-                let ok = shown.is_visible() && s.ch == c.to_char().ch as u32 && (c.fg == TRANSPARENT || s.fg == c.fg) && (c.bg == TRANSPARENT || s.bg == c.bg);
-                if !ok {
-                    run.oracle_fail("topmost_first", &input, &format!("at ({},{}) the topmost visible cell is {} of layer {} but {} is displayed", x, y, c.show(), li, s.show()));
-                }
-                break;
-            }
-            if !l.alpha {
-                break; // opaque layer without a visible cell here: shows the default cell
-            }
-        }
-    }
+    topmost_oracle(run, case, &pos, &base, &input);
 
     // --- consequence 1: inserting an empty alpha layer anywhere
     for idx in 0..=n {
@@ -460,8 +706,86 @@ fn tiny_configs(with_hidden: bool) -> Vec<LayerSpec> {
     v
 }
 
+/// `make_solid_color(t, u)` on the real buffer, with its two oracle clauses; returns the observed cell
+fn solid_check(run: &mut Run, buf: &Buffer, t: CellSpec, u: CellSpec) -> String {
+    let rs = CellSpec::of(buf.make_solid_color(t.to_char(), u.to_char()));
+    let input = format!("solid:{},{}", t.show(), u.show());
+    // oracle (Lean: `halfblock_cp437_blocks`): on CP437 8x16 (buffer slot 0) a full block shows its foreground in both halves,
+    // a blank its background, the upper / lower half block one each — seen through an all-transparent upper half block
+    if u.page == 0 && t.ch == 223 && t.fg == TRANSPARENT && t.bg == TRANSPARENT {
+        let want = match u.ch {
+            219 => Some((u.fg, u.fg)),
+            32 => Some((u.bg, u.bg)),
+            223 => Some((u.fg, u.bg)),
+            220 => Some((u.bg, u.fg)),
+            _ => None,
+        };
+        if let Some((up, lo)) = want {
+            if (rs.fg, rs.bg) != (up, lo) {
+                run.oracle_fail("halfblock_shapes", &input, &format!("a transparent upper half block over {} must show ({},{}) but make_solid_color gives {}", u.show(), up, lo, rs.show()));
+            }
+        }
+    }
+    // oracle (Lean: `makeSolid_fills`): make_solid_color only fills the transparent colours of `t` in, with a colour of `u`
+    let from_u = |c: u32| c == u.fg || c == u.bg;
+    if !(fills(t, rs) && (t.fg != TRANSPARENT || from_u(rs.fg)) && (t.bg != TRANSPARENT || from_u(rs.bg))) {
+        run.oracle_fail("make_solid_color", &input, &format!("make_solid_color({}, {}) = {}: not the transparent cell with its transparent colours replaced by colours of the cell beneath", t.show(), u.show(), rs.show()));
+    }
+    rs.show()
+}
+
+/// `is_visible` / `is_transparent` of one cell; oracle: visibility is the INVISIBLE bit and nothing else
+fn pred_check(run: &mut Run, c: CellSpec) -> String {
+    let a = c.to_char();
+    if a.is_visible() != (c.flags & INVISIBLE == 0) {
+        run.oracle_fail("is_visible", &format!("cell:{}", c.show()), &format!("is_visible() = {} for attribute bits {:#06x}", a.is_visible(), c.flags));
+    }
+    format!("{}{}", a.is_visible() as u8, a.is_transparent() as u8)
+}
+
+fn cell_words(c: CellSpec) -> [i64; 5] {
+    [c.ch as i64, c.fg as i64, c.bg as i64, c.flags as i64, c.page as i64]
+}
+
+fn parse_cells(s: &str) -> Option<Vec<CellSpec>> {
+    let v = parse_ints(s)?;
+    if v.len() % 5 != 0 {
+        return None;
+    }
+    Some(v.chunks(5).map(|w| CellSpec::of(CellSpec { ch: w[0] as u32, fg: w[1] as u32, bg: w[2] as u32, flags: w[3] as u16, page: w[4] as usize }.to_char())).collect())
+}
+
+/// replay inputs of the direct families: `solid:<t>,<u>` and `cell:<c>` (cells as `ch,fg,bg,flags,page`)
+fn replay_direct(run: &mut Run, r: &str) -> bool {
+    if let Some(rest) = r.strip_prefix("solid:") {
+        if let Some(cs) = parse_cells(rest).filter(|cs| cs.len() == 2) {
+            let buf = build(false, &[]);
+            let seen = solid_check(run, &buf, cs[0], cs[1]);
+            let mut words = font_words();
+            words.push(1);
+            words.extend(cell_words(cs[0]));
+            words.extend(cell_words(cs[1]));
+            run.case(&format!("comp solid {}", join(&words, " ")), &seen);
+            return true;
+        }
+    }
+    if let Some(rest) = r.strip_prefix("cell:") {
+        if let Some(cs) = parse_cells(rest).filter(|cs| cs.len() == 1) {
+            let seen = pred_check(run, cs[0]);
+            let mut words = vec![1];
+            words.extend(cell_words(cs[0]));
+            run.case(&format!("comp pred {}", join(&words, " ")), &seen);
+            return true;
+        }
+    }
+    false
+}
+
 pub fn run(run: &mut Run, seed: u64, thorough: bool, replay: Option<&str>, corpus: &[String]) {
     if let Some(r) = replay {
+        if replay_direct(run, r.trim()) {
+            return;
+        }
         match Case::decode(r.trim()) {
             Some(c) => one(run, &c, true),
             None => eprintln!("c13: cannot decode replay input"),
@@ -469,6 +793,9 @@ pub fn run(run: &mut Run, seed: u64, thorough: bool, replay: Option<&str>, corpu
         return;
     }
     for c in corpus {
+        if replay_direct(run, c.trim()) {
+            continue;
+        }
         if let Some(c) = Case::decode(c) {
             one(run, &c, true);
         }
@@ -512,7 +839,7 @@ pub fn run(run: &mut Run, seed: u64, thorough: bool, replay: Option<&str>, corpu
                 .collect();
             layers.push(LayerSpec { visible: true, alpha: k > 0 || rng.chance(1, 2), mode: if k > 0 && rng.chance(1, 6) { *rng.pick(&[1u8, 2]) } else { 0 }, ox: rng.range(0, 1) as i32, oy: 0, w, h, dflt: *rng.pick(&[0usize, 1, 3]), rows });
         }
-        let c = Case { is_term: rng.chance(1, 2), tseed: rng.next() >> 12, rect: Case::bbox_rect(&layers), layers };
+        let c = Case { is_term: rng.chance(1, 2), tseed: rng.next() >> 12, rect: Case::bbox_rect(&layers), layers, ops: Vec::new() };
         one(run, &c, true);
         run.count("half-block-tower");
     }
@@ -520,7 +847,7 @@ pub fn run(run: &mut Run, seed: u64, thorough: bool, replay: Option<&str>, corpu
     let cfg2 = tiny_configs(true);
     let cfg3 = tiny_configs(false);
     let mut small: Vec<Case> = Vec::new();
-    let mk = |layers: Vec<LayerSpec>, t: bool| Case { is_term: t, tseed: 7, rect: (-1, 0, 1, 0), layers };
+    let mk = |layers: Vec<LayerSpec>, t: bool| Case { is_term: t, tseed: 7, rect: (-1, 0, 1, 0), layers, ops: Vec::new() };
     if thorough {
         for a in &cfg2 {
             for t in [false, true] {
@@ -550,6 +877,141 @@ pub fn run(run: &mut Run, seed: u64, thorough: bool, replay: Option<&str>, corpu
         let buf = build(c.is_term, &c.layers);
         correspond(run, c, &buf);
         run.count("small-scope");
+    }
+    // --- histories of position operations on real layers (set_offset / set_preview_offset / lock / direct writes)
+    {
+        // seeded: random stacks per the quantifier, 1..=8 operations on random layers
+        for _ in 0..(if thorough { 6000 } else { 500 }) {
+            let mut c = rand_case(&mut rng);
+            for l in c.layers.iter_mut() {
+                if rng.chance(3, 4) {
+                    l.visible = true;
+                }
+            }
+            let k = rng.range(1, 8) as usize;
+            let n = c.layers.len();
+            let mut last: Vec<(i32, i32)> = c.layers.iter().map(|l| (l.ox, l.oy)).collect();
+            for _ in 0..k {
+                let i = rng.below(n as u64) as usize;
+                let fresh = (rng.range(-4, 6) as i32, rng.range(-4, 6) as i32);
+                // "same" = the offset most recently given to this layer through any operation
+                let q = if rng.chance(1, 3) { last[i] } else { fresh };
+                let op = match rng.below(10) {
+                    0..=2 => Op::SetOffset(q.0, q.1),
+                    3..=5 => Op::Preview(fresh.0, fresh.1),
+                    6 => Op::PreviewNone,
+                    7 => Op::Lock(rng.chance(1, 2)),
+                    8 => Op::Assign(q.0, q.1),
+                    _ => Op::SetOffset(c.layers[i].ox, c.layers[i].oy),
+                };
+                if let Op::SetOffset(x, y) | Op::Assign(x, y) = op {
+                    last[i] = (x, y);
+                }
+                c.ops.push((i, op));
+            }
+            // the pictures move around: query the union of the places a layer can be
+            c.rect = (c.rect.0.min(-6), c.rect.1.min(-6), c.rect.2.max(19), c.rect.3.max(15));
+            one(run, &c, true);
+            run.count("offset-history");
+        }
+        // exhaustive: every history of length <= 3 (thorough: <= 4) over the alphabet below on the top layer of a fixed
+        // two-layer stack (an opaque background and a small alpha layer at (2,1))
+        let cell = |ch: u32, fg: u32, bg: u32| Some(CellSpec { ch, fg, bg, flags: 0, page: 0 });
+        let bottom = LayerSpec { visible: true, alpha: false, mode: 0, ox: -1, oy: 0, w: 8, h: 4, dflt: 0, rows: (0..4).map(|y| (0..8).map(|x| if (x + 2 * y) % 3 != 0 { cell(46, 8, 1) } else { None }).collect()).collect() };
+        let top = LayerSpec { visible: true, alpha: true, mode: 0, ox: 2, oy: 1, w: 3, h: 2, dflt: 0, rows: vec![vec![cell(65, 15, 4), None, cell(66, 14, 4)], vec![None, cell(223, 13, TRANSPARENT), None]] };
+        let alphabet = [Op::SetOffset(2, 1), Op::SetOffset(4, 2), Op::SetOffset(-3, 0), Op::Preview(5, 3), Op::Preview(2, 1), Op::PreviewNone, Op::Lock(true), Op::Lock(false), Op::Assign(0, 0)];
+        let maxlen = if thorough { 4 } else { 3 };
+        let mut seqs: Vec<Vec<Op>> = vec![Vec::new()];
+        let mut frontier: Vec<Vec<Op>> = vec![Vec::new()];
+        for _ in 0..maxlen {
+            let mut next = Vec::new();
+            for sq in &frontier {
+                for op in &alphabet {
+                    let mut t = sq.clone();
+                    t.push(*op);
+                    next.push(t);
+                }
+            }
+            seqs.extend(next.iter().cloned());
+            frontier = next;
+        }
+        run.extra.push(("exhaustive_offset_histories".into(), (seqs.len() - 1).to_string()));
+        for sq in seqs.iter().skip(1) {
+            let c = Case { is_term: false, tseed: 7, rect: (-4, -1, 9, 5), layers: vec![bottom.clone(), top.clone()], ops: sq.iter().map(|o| (1usize, *o)).collect() };
+            one(run, &c, true);
+            run.count("offset-history-exhaustive");
+        }
+    }
+    // --- make_solid_color / HalfBlock::from on every glyph of every installed font (and an absent font, an absent glyph)
+    {
+        let buf = build(false, &[]);
+        let shapes: &[(u32, u32, u32)] = &[(223, TRANSPARENT, TRANSPARENT), (220, TRANSPARENT, TRANSPARENT), (65, TRANSPARENT, TRANSPARENT), (223, 3, TRANSPARENT), (220, TRANSPARENT, 4), (219, 5, 6)];
+        let pages: &[usize] = &[0, 1, 2, 3];
+        let step = 1;
+        for &page in pages {
+            for (si, &(tch, tfg, tbg)) in shapes.iter().enumerate() {
+                if !thorough && si >= 3 && page != 0 {
+                    continue;
+                }
+                let mut words = font_words();
+                let mut chars: Vec<u32> = (0..256).step_by(step).collect();
+                chars.extend([256u32, 0x2588, 0xFFFF]);
+                words.push(chars.len() as i64);
+                let mut seen = Vec::new();
+                for &ch in &chars {
+                    let t = CellSpec { ch: tch, fg: tfg, bg: tbg, flags: (si as u16) & 1, page: 3 - page };
+                    let u = CellSpec { ch, fg: 1 + (ch % 5), bg: 9 + (ch % 3), flags: 0, page };
+                    let (t, u) = (CellSpec::of(t.to_char()), CellSpec::of(u.to_char()));
+                    words.extend([t.ch as i64, t.fg as i64, t.bg as i64, t.flags as i64, t.page as i64, u.ch as i64, u.fg as i64, u.bg as i64, u.flags as i64, u.page as i64]);
+                    seen.push(solid_check(run, &buf, t, u));
+                }
+                run.case(&format!("comp solid {}", join(&words, " ")), &seen.join(" "));
+                run.count("make-solid-row");
+            }
+        }
+    }
+    // --- AttributedChar::is_visible / is_transparent on every attribute bit and the blank characters
+    {
+        let mut cells = Vec::new();
+        for ch in [0u32, 32, 33, 65, 255] {
+            for bg in [0u32, 1, TRANSPARENT] {
+                for bit in 0..16u16 {
+                    cells.push(CellSpec { ch, fg: 7, bg, flags: 1 << bit, page: 0 });
+                }
+                for flags in [0u16, 0xFFFF, 0x7FFF, 0x8001, 0xC000] {
+                    cells.push(CellSpec { ch, fg: 7, bg, flags, page: 0 });
+                }
+            }
+        }
+        let mut words = vec![cells.len() as i64];
+        let mut seen = Vec::new();
+        for c in &cells {
+            words.extend([c.ch as i64, c.fg as i64, c.bg as i64, c.flags as i64, c.page as i64]);
+            seen.push(pred_check(run, *c));
+        }
+        run.case(&format!("comp pred {}", join(&words, " ")), &seen.join(" "));
+    }
+    // --- Layer::get_char on ragged rows, inside and outside the layer
+    for _ in 0..(if thorough { 2000 } else { 200 }) {
+        let mut l = rand_layer(&mut rng);
+        if rng.chance(1, 3) {
+            // rows longer / more numerous than the layer size
+            let (w, h) = (l.w, l.h);
+            l.rows = rand_rows(&mut rng, w + 3, h + 2, 60, true);
+        }
+        let real = l.build();
+        let mut words = Vec::new();
+        l.encode(&mut words);
+        let rect = (-2, -2, l.w + 2, l.h + 2);
+        words.extend([rect.0 as i64, rect.1 as i64, rect.2 as i64, rect.3 as i64]);
+        let mut seen = Vec::new();
+        for y in rect.1..=rect.3 {
+            for x in rect.0..=rect.2 {
+                seen.push(CellSpec::of(real.get_char((x, y))).show());
+            }
+        }
+        run.case(&format!("comp lget {}", join(&words, " ")), &seen.join(" "));
+        run.count("layer-get-char");
     }
     // outside the quantifier (correspondence only): offsets at the edge of i32 — the subtraction
     // `pos - offset` is a checked i32 operation in the debug profile
